@@ -252,7 +252,7 @@ func runC18(r *vf.Run) {
 	r.ForEach(ids, 8, func(cid string) {
 		var todo []c18Job
 		for _, j := range chunks[cid] {
-			if r.Want(cid + "/" + j.ID) {
+			if r.Want(cid+"/"+j.ID) || r.Only == cid+"/all" || strings.HasPrefix(r.Only, cid+"/all/") {
 				todo = append(todo, j)
 			}
 		}
@@ -264,7 +264,7 @@ func runC18(r *vf.Run) {
 		_ = os.WriteFile(specPath, b, 0o644)
 		logp := filepath.Join(dir, cid+"-race.log")
 		res := runChild(r, binPath("vcheck.race"), []string{"worker", "c18-addrow", specPath}, childOpts{Timeout: 10 * time.Minute, RaceLog: logp})
-		nraces := checkRaceLog(r, cid, logp)
+		nraces := checkRaceLog(r, cid+"/all", logp) // replaying "<chunk>/all" runs every job of the chunk
 		if res.TimedOut {
 			hangVerdict(r, cid, res, nil)
 			return
